@@ -50,8 +50,13 @@ func (f *FilterData) SelectorMatch(item any) bool {
 			continue
 		}
 
+		// an item which does not have the selected field set can not match
+		if itemF.Kind() != reflect.Ptr || itemF.IsNil() {
+			return false
+		}
+
 		itemValue := itemF.Elem().Interface()
-		if itemValue != value {
+		if !reflect.DeepEqual(itemValue, value) {
 			return false
 		}
 	}
